@@ -78,6 +78,10 @@ def check_success_behind(ctx, fx, config, f, after_blocks, edges, key, what, ext
 def run(ctx):
     for config in ctx.configs:
         fx = ctx.facts(config)
+        # a replayed container must hold every element that was delivered while it was being recorded: an element
+        # missing from the replay makes a too-long sequence fit a shorter tuple (surplus accepted) — shared RECORD rule
+        from .C02 import rule_record
+        rule_record(ctx, fx, config, prop="C05")
         # ---- census of container-start consumers
         consumers = {}
         for f in fx.fns.values():
